@@ -79,8 +79,11 @@ of primitives that are not reached are ignored. -/
 structure Sched where
   getsize : Out := .ok
   jopen : Out := .ok
-  /-- raw write attempts of the journal text (each attempt carries the whole text) -/
-  jwrites : List Out := [.ok]
+  /-- the raw write of the journal text (issued when the text file object is closed) -/
+  jwrite : Out := .ok
+  /-- CPython's `TextIOWrapper.close()` closes its buffer even when its own flush failed, and
+  that close flushes once more: a failed `jwrite` is followed by one retry with the whole text -/
+  jretry : Out := .ok
   jclose : Out := .ok
   /-- removal of the journal after its creation failed -/
   junlink : Out := .ok
@@ -159,12 +162,18 @@ def journalCreate (fs : FS) (n : Nat) (s : Sched) : Ph :=
   | .fail k => ⟨fs, [(.jopen, .fail k)], some .raised⟩
   | .die k => ⟨fs, [(.jopen, .die k)], some .died⟩
   | .ok =>
-    let ws := s.jwrites.map (fun o => (journalText n, o))
-    let w := writes [] ws
-    let fs1 : FS := { fs with journal := some w.1 }
-    let tr := (Prim.jopen, Tag.ok) :: writesTrace .jwrite ws
-    if w.2.2 then ⟨fs1, tr, some .died⟩
-    else closeStep fs1 tr .jclose s.jclose w.2.1
+    let t := journalText n
+    match s.jwrite with
+    | .ok => closeStep { fs with journal := some t } [(.jopen, .ok), (.jwrite t, .ok)] .jclose s.jclose false
+    | .die k => ⟨{ fs with journal := some (t.take k) }, [(.jopen, .ok), (.jwrite t, .die k)], some .died⟩
+    | .fail k =>
+      match s.jretry with
+      | .ok => closeStep { fs with journal := some (t.take k ++ t) }
+                 [(.jopen, .ok), (.jwrite t, .fail k), (.jwrite t, .ok)] .jclose s.jclose true
+      | .fail k2 => closeStep { fs with journal := some (t.take k ++ t.take k2) }
+                 [(.jopen, .ok), (.jwrite t, .fail k), (.jwrite t, .fail k2)] .jclose s.jclose true
+      | .die k2 => ⟨{ fs with journal := some (t.take k ++ t.take k2) },
+                 [(.jopen, .ok), (.jwrite t, .fail k), (.jwrite t, .die k2)], some .died⟩
 
 /-- the `except OSError:` around the journal creation: `if exists(journal): remove(journal); raise` -/
 def journalPhase (fs : FS) (n : Nat) (s : Sched) : Ph :=
